@@ -121,7 +121,7 @@ theorem attacked_iff (b : RBoard) (by' : Player) (t : Sq) :
 
 /-! ### the bitboard side -/
 
-theorem mem_piecesOf (b : Board) (hc : Consistent b) (k : PieceKind) (p : Player) (s : Sq) :
+theorem mem_kindOf (b : Board) (hc : Consistent b) (k : PieceKind) (p : Player) (s : Sq) :
     mem (b.byKind k &&& b.occFor p) s = true ↔ b.pieceAt s = some ⟨k, p⟩ := by
   rw [mem_and, hc.1 k s, hc.2 p s]
   cases h : b.pieceAt s with
@@ -180,19 +180,19 @@ theorem mem_attackersOf (T : SliderTables) (b : Board) (hc : Consistent b) (p : 
       (b.pieceAt q = some ⟨.pawn, p.other⟩ ∧
         (offset t (-1) (-(fwd p.other)) = some q ∨ offset t 1 (-(fwd p.other)) = some q)) := by
     rw [mem_and, Bool.and_eq_true, mem_pawnAttacks, ← fwd_other]
-    have := mem_piecesOf b hc .pawn p.other q
+    have := mem_kindOf b hc .pawn p.other q
     unfold pawnsOf; rw [show b.pawns = b.byKind .pawn from rfl, this]
     exact And.comm
   have hN : mem (knightAttacks t &&& b.knightsOf p.other) q = true ↔
       (b.pieceAt q = some ⟨.knight, p.other⟩ ∧ ∃ d ∈ knightDeltas, offset t d.1 d.2 = some q) := by
     rw [mem_and, Bool.and_eq_true, mem_knightAttacks]
-    have := mem_piecesOf b hc .knight p.other q
+    have := mem_kindOf b hc .knight p.other q
     unfold knightsOf; rw [show b.knights = b.byKind .knight from rfl, this]
     exact And.comm
   have hK : mem (kingAttacks t &&& b.kingOf p.other) q = true ↔
       (b.pieceAt q = some ⟨.king, p.other⟩ ∧ ∃ d ∈ kingDeltas, offset t d.1 d.2 = some q) := by
     rw [mem_and, Bool.and_eq_true, mem_kingAttacks]
-    have := mem_piecesOf b hc .king p.other q
+    have := mem_kindOf b hc .king p.other q
     unfold kingOf; rw [show b.kings = b.byKind .king from rfl, this]
     exact And.comm
   have hB : mem (bishopAttacks t b.occupancy &&& b.diagSliders p.other) q = true ↔
@@ -201,7 +201,7 @@ theorem mem_attackersOf (T : SliderTables) (b : Board) (hc : Consistent b) (p : 
     rw [mem_and, Bool.and_eq_true, T.bishop, bishopSpec, slideSpec, mem_setOf]
     unfold diagSliders bishopsOf queensOf
     rw [mem_or, Bool.or_eq_true, show b.bishops = b.byKind .bishop from rfl,
-      show b.queens = b.byKind .queen from rfl, mem_piecesOf b hc, mem_piecesOf b hc]
+      show b.queens = b.byKind .queen from rfl, mem_kindOf b hc, mem_kindOf b hc]
     simp only [List.mem_flatMap, seen_occ_congr b hc]
     exact And.comm
   have hR : mem (rookAttacks t b.occupancy &&& b.orthSliders p.other) q = true ↔
@@ -210,7 +210,7 @@ theorem mem_attackersOf (T : SliderTables) (b : Board) (hc : Consistent b) (p : 
     rw [mem_and, Bool.and_eq_true, T.rook, rookSpec, slideSpec, mem_setOf]
     unfold orthSliders rooksOf queensOf
     rw [mem_or, Bool.or_eq_true, show b.rooks = b.byKind .rook from rfl,
-      show b.queens = b.byKind .queen from rfl, mem_piecesOf b hc, mem_piecesOf b hc]
+      show b.queens = b.byKind .queen from rfl, mem_kindOf b hc, mem_kindOf b hc]
     simp only [List.mem_flatMap, seen_occ_congr b hc]
     exact And.comm
   rw [hP, hN, hK, hB, hR]
@@ -267,7 +267,7 @@ theorem lsbSq_kingOf (b : Board) (hc : Consistent b) (p : Player) :
   rw [List.head?_filter]
   congr 1
   funext s
-  have h := mem_piecesOf b hc .king p s
+  have h := mem_kindOf b hc .king p s
   have hat : at' b.squares s = b.pieceAt s := rfl
   rw [hat]
   unfold kingOf
